@@ -72,6 +72,10 @@ type caseIn struct {
 	bind     bool          // the query is made with Session.Bind (values from a binding callback) instead of Session.Query
 	retries  int           // > 0: a retry policy that retries a failed fetch on the same host up to this many times per page
 	eff      []reply       // script as the paging logic sees it: a failed fetch that is retried = "the same request again"
+	mutate   int           // > 0: what the caller does to the *Query handle right after Iter() returned (mutateHandle)
+	partner  *caseIn       // a second iterator made from the SAME *Query handle (re-bound) and read side by side with this one
+	second   bool          // this case is somebody's partner: it is run by its first half
+	byValue  bool          // the node finds the case by the first bound value (statement shared between partners)
 	delay    time.Duration // the node answers this much later (the prefetch is still in flight when the consumer catches up)
 	ownSess  bool          // the script closes a connection: the case gets a session of its own
 }
@@ -197,6 +201,17 @@ func textOf(m map[string]interface{}) (string, int) {
 func handle(c *node.ServerConn, req *node.Request) {
 	stmt := req.Statement()
 	id := tagOf(stmt)
+	if strings.Contains(stmt, "c15h_") { // handle-reuse pairs share the statement: the first bound value names the case
+		id = -1
+		var vs []node.Value
+		if req.Execute != nil {
+			vs = req.Execute.Params.Values
+		}
+		if len(vs) > 0 && len(vs[0].Bytes) == 4 {
+			b := vs[0].Bytes
+			id = int(int32(uint32(b[0])<<24 | uint32(b[1])<<16 | uint32(b[2])<<8 | uint32(b[3])))
+		}
+	}
 	casesMu.Lock()
 	cs := cases[id]
 	casesMu.Unlock()
@@ -359,6 +374,50 @@ func effective(script []reply, n int) []reply {
 	return out
 }
 
+// mutateHandle: the caller goes on using its *Query after Iter() returned. Nothing of this may reach the
+// iterator that already exists: its following pages are requested with the statement, values and options the
+// query had when Iter() was called.
+func mutateHandle(q *gocql.Query, in *caseIn) {
+	other := make([]interface{}, len(in.vals))
+	for i, v := range in.vals {
+		other[i] = v ^ 0x5a5a5a
+	}
+	otherCons := gocql.Two
+	if in.cons == gocql.Two {
+		otherCons = gocql.Three
+	}
+	switch in.mutate {
+	case 1:
+		q.Bind(other...)
+	case 2:
+		q.Consistency(otherCons)
+	case 3:
+		q.PageSize(in.psize + 7)
+	case 4:
+		if in.serial == gocql.Serial {
+			q.SerialConsistency(gocql.LocalSerial)
+		} else {
+			q.SerialConsistency(gocql.Serial)
+		}
+	case 5:
+		q.PageState([]byte{0xEE, 0xEE})
+	case 6:
+		q.NoSkipMetadata()
+	case 7:
+		q.WithTimestamp(in.ts + 12345)
+	case 8:
+		q.DefaultTimestamp(!in.tsflag)
+	case 9:
+		q.RetryPolicy(sameHostRetry{2}).Idempotent(true)
+	case 10:
+		q.Release()
+	case 11:
+		q.Bind(other...).Consistency(otherCons).PageSize(in.psize + 1).Prefetch(0.5)
+	}
+}
+
+const nMutations = 11
+
 func runCase(s *gocql.Session, in *caseIn) (out caseOut) {
 	defer func() {
 		if r := recover(); r != nil {
@@ -367,6 +426,9 @@ func runCase(s *gocql.Session, in *caseIn) (out caseOut) {
 	}()
 	q := buildQuery(s, in)
 	iter := q.Iter()
+	if in.mutate > 0 {
+		mutateHandle(q, in)
+	}
 	limit := in.stop
 	check := func(id int, txt string, blob []byte, m map[string]interface{}) {
 		if (txt != rowText(int32(id)) || !bytes.Equal(blob, rowBlob(int32(id)))) && out.badRow == "" {
@@ -437,6 +499,51 @@ func runCase(s *gocql.Session, in *caseIn) (out caseOut) {
 	}
 	out.err, out.errText = errCode(err)
 	return out
+}
+
+// runPair: two iterators from one *Query handle, `a := q.Bind(x).Iter(); b := q.Bind(y).Iter()`, read side by
+// side with Iter.Scan. Each must get its own rows and request its own following pages.
+func runPair(s *gocql.Session, a, b *caseIn) (oa, ob caseOut) {
+	defer func() {
+		if r := recover(); r != nil {
+			oa.panicked = fmt.Sprint(r)
+		}
+	}()
+	q := buildQuery(s, a)
+	ia := q.Iter()
+	args := make([]interface{}, len(b.vals))
+	for i, v := range b.vals {
+		args[i] = v
+	}
+	ib := q.Bind(args...).Iter()
+	step := func(it *gocql.Iter, out *caseOut, done *bool) {
+		if *done {
+			return
+		}
+		var id int
+		var txt string
+		var blob []byte
+		out.ncalls++
+		if !it.Scan(&id, &txt, &blob) {
+			*done = true
+			return
+		}
+		if (txt != rowText(int32(id)) || !bytes.Equal(blob, rowBlob(int32(id)))) && out.badRow == "" {
+			out.badRow = fmt.Sprintf("row id %d came with text %q blob %x", id, txt, blob)
+		}
+		out.kept = append(out.kept, keptRow{id, txt, blob, nil})
+		out.rows = append(out.rows, int32(id))
+		out.tags = append(out.tags, metaTag(it.Columns()))
+	}
+	var da, db bool
+	for !da || !db {
+		step(ia, &oa, &da)
+		step(ib, &ob, &db)
+	}
+	oa.err, oa.errText = errCode(ia.Close())
+	ob.err, ob.errText = errCode(ib.Close())
+	oa.state, ob.state = ia.PageState(), ib.PageState()
+	return
 }
 
 // recheckKept looks at every row handed out earlier once more: later page switches, Close() and the end of the
@@ -670,6 +777,11 @@ type gen struct {
 func (g *gen) add(in *caseIn) *caseIn {
 	in.id = len(g.cases)
 	tbl := fmt.Sprintf("c15_%d", in.id)
+	if in.byValue {
+		tbl = fmt.Sprintf("c15h_%d", in.id)
+		in.prepared = true
+		in.vals = append([]int32{int32(in.id)}, in.vals...)
+	}
 	if in.prepared {
 		conds := make([]string, len(in.vals))
 		for i := range in.vals {
@@ -1029,6 +1141,71 @@ func (g *gen) generate(scale int, search bool) {
 		}
 		g.add(in)
 	}
+	// (9) the caller goes on using the *Query handle after Iter() returned: every kind of change, on scripts whose
+	// later pages (and, for the retry-policy change, a later error) would show it
+	n = 12 * nMutations * scale / 2
+	if n < 6*nMutations {
+		n = 6 * nMutations
+	}
+	for i := 0; i < n; i++ {
+		in := &caseIn{kind: "handle-mutated", consumer: r.Intn(4), mutate: 1 + i%nMutations}
+		g.randomCfg(in)
+		in.prepared = in.mutate == 1 || in.mutate == 6 || in.mutate == 11 || !r.Chance(20)
+		if len(in.vals) == 0 {
+			in.vals = []int32{int32(r.U64()), int32(r.U64())}
+		}
+		in.retries = 0
+		if in.mutate == 6 {
+			in.noskip = false
+		}
+		if in.mutate == 10 { // Release zeroes the handle: keep the prefetch goroutine out of it
+			in.pfNum, in.pfDen = 0, 1
+		}
+		np := 1 + r.Intn(3)
+		counts := make([]int, np)
+		for k := range counts {
+			counts[k] = 1 + r.Intn(3)
+		}
+		t, _ := g.term(false)
+		if in.mutate == 9 {
+			t = reply{kind: rErr, code: errCodes[r.Intn(len(errCodes))]}
+		}
+		in.script = g.pages(counts, t)
+		if in.mutate == 9 { // what a (wrongly) retried request would get
+			in.script = append(in.script, reply{kind: rPage, rows: ids(np+1, 2)})
+		}
+		if r.Chance(20) && in.consumer != 3 {
+			in.stop = 1 + r.Intn(5)
+		}
+		g.add(in)
+	}
+	// (10) two iterators from one handle, re-bound in between, read side by side
+	n = 30 * scale
+	for i := 0; i < n; i++ {
+		a := &caseIn{kind: "handle-shared", consumer: 0, byValue: true}
+		g.randomCfg(a)
+		a.bind, a.retries, a.delay = false, 0, 0
+		a.vals = []int32{int32(r.U64())}
+		mk := func() []reply {
+			np := 1 + r.Intn(3)
+			counts := make([]int, np)
+			for k := range counts {
+				counts[k] = 1 + r.Intn(3)
+			}
+			t, _ := g.term(false)
+			return g.pages(counts, t)
+		}
+		a.script = mk()
+		g.add(a)
+		b := *a
+		b.vals = []int32{int32(r.U64())}
+		b.script = mk()
+		b.second = true
+		bp := &b
+		g.add(bp)
+		bp.stmt = a.stmt // one handle, one statement; the bound values differ
+		a.partner = bp
+	}
 	// (8) a request that is never answered, with a retry policy: every retry times out as well
 	for i := 0; i < 3; i++ {
 		in := &caseIn{kind: "retry-noreply", consumer: i, prepared: i != 1, bind: i == 2, psize: 5, cons: gocql.One, pfNum: 1, pfDen: 4, stop: -1, retries: 1, sess: i % g.nsess}
@@ -1110,7 +1287,7 @@ func main() {
 	nd := net.AddNode("10.0.0.1:9042")
 	net.SetKeyspace("demo", node.Keyspace{Replication: node.SimpleStrategy(1), DurableWrites: true})
 	nd.AddRule(node.Rule{Match: func(r *node.Request) bool {
-		return (r.Query != nil || r.Execute != nil) && strings.Contains(r.Statement(), "c15_")
+		return (r.Query != nil || r.Execute != nil) && (strings.Contains(r.Statement(), "c15_") || strings.Contains(r.Statement(), "c15h_"))
 	}, Do: handle})
 
 	protos := []int{4, 3, 2}
@@ -1154,6 +1331,34 @@ func main() {
 			defer s.Close()
 			sess = s
 		}
+		if in.partner != nil {
+			a, b := in, in.partner
+			ora, orb := expect(a), expect(b)
+			oracles[a.id], oracles[b.id] = ora, orb
+			casesMu.Lock()
+			csa, csb := &caseState{in: a}, &caseState{in: b}
+			cases[a.id], cases[b.id] = csa, csb
+			casesMu.Unlock()
+			oa, ob := runPair(sess, a, b)
+			for _, x := range []struct {
+				in  *caseIn
+				or  oracle
+				cs  *caseState
+				out *caseOut
+			}{{a, ora, csa, &oa}, {b, orb, csb, &ob}} {
+				want := len(x.or.states)
+				cs := x.cs
+				ok := net.WaitFor(time.Second, func() bool { cs.mu.Lock(); defer cs.mu.Unlock(); return len(cs.reqs) >= want })
+				waitedOut[x.in.id] = !ok
+				cs.mu.Lock()
+				x.out.reqs = append([]obsReq(nil), cs.reqs...)
+				cs.frozen = true
+				cs.mu.Unlock()
+				recheckKept(x.out)
+			}
+			outs[a.id], outs[b.id] = oa, ob
+			return
+		}
 		or := expect(in)
 		oracles[in.id] = or
 		var out caseOut
@@ -1196,7 +1401,7 @@ func main() {
 		}()
 	}
 	for _, in := range g.cases {
-		if !in.ownSess {
+		if !in.ownSess && !in.second {
 			work <- in
 		}
 	}
